@@ -593,8 +593,65 @@ def check_inheritance(case):
         raise Violation("C12/inheritance/getter-run-count", f"{case}: {runs}")
 
 
+# ---- crowds: many getters pending at the same time ---------------------------------------------
+
+
+def crowd_cases():
+    return [{"tasks": n, "lock": lock, "susp": susp, "instances": inst}
+            for n in (40, 70, 130, 300) for lock in (False, True) for susp in (1, 3) for inst in ("own", "shared")]
+
+
+def check_crowd(case):
+    """`tasks` tasks await the property at the same time - each on an instance of its own, or all on one instance.
+    How many getters are pending at once is nobody's business: everyone gets a value some run returned, instances
+    do not see each other's values, with a lock one instance sees one run"""
+    ctx = Ctx("a")
+    runs = []
+    LockT = lock_type(ctx, "plock", suspend_uncontended=False)
+
+    async def getter(self):
+        n = len(runs)
+        runs.append((self, n))
+        for k in range(case["susp"]):
+            await ctx.suspend(("getter", n, k))
+        return ["value", id(self), n]
+
+    class Holder:
+        prop = a.cached_property(LockT)(getter) if case["lock"] else a.cached_property(getter)
+    Holder.prop.__set_name__(Holder, "prop")
+    objs = [Holder() for _ in range(case["tasks"] if case["instances"] == "own" else 1)]
+    results = {}
+
+    async def awaiter(i):
+        obj = objs[i % len(objs)]
+        results[i] = (obj, await obj.prop)
+
+    sched = Scheduler(ctx, [(f"t{i}", awaiter(i)) for i in range(case["tasks"])], [], max_steps=100000)
+    sched.run()
+    if sched.verdict:
+        raise Violation(f"C12/crowd/{sched.verdict}", f"{case}")
+    for t in sched.tasks:
+        if t.outcome[0] != "return":
+            raise Violation("C12/crowd/task-raised", f"{case}: {t.name}: {t.outcome[1]!r} with {len(runs)} getter runs started")
+    for i, (obj, value) in results.items():
+        if not (isinstance(value, list) and value[1] == id(obj)):
+            raise Violation("C12/crowd/value-of-another-instance", f"{case}: task {i} got {value}")
+    per_instance = {}
+    for obj, n in runs:
+        per_instance[id(obj)] = per_instance.get(id(obj), 0) + 1
+    if case["lock"] and any(c != 1 for c in per_instance.values()):
+        raise Violation("C12/crowd/getter-ran-more-than-once-despite-lock", f"{case}: {sorted(per_instance.values())[-3:]}")
+    if len(per_instance) != len(objs):
+        raise Violation("C12/crowd/instance-without-a-run", f"{case}")
+    for lock in ctx.locks:
+        if lock.locked or lock.waiters or lock.acquired != lock.released or lock.errors:
+            raise Violation("C12/crowd/lock-not-free-at-quiescence", f"{case}: {lock.name}")
+    return {"evaluations": 1, "nontrivial": ["x"]}
+
+
 def shards(tier):
-    out = [Shard("inheritance", check_inheritance, cases=inheritance_cases, nontrivial=lambda c: True,
+    out = [Shard("crowds", check_crowd, cases=crowd_cases, nontrivial=lambda c: True, exhaustive=True)]
+    out += [Shard("inheritance", check_inheritance, cases=inheritance_cases, nontrivial=lambda c: True,
                  exhaustive=True)]
     out += [Shard(f"sequential-{i}", check_seq, strategy=seq_histories(tier), n=500, nontrivial=lambda c: False,
                  thorough_mult=20) for i in range(4)]
